@@ -71,6 +71,17 @@ def aztec_jobs(ctx, rng):
     return [dict(kind="aztec", text="", w=0, h=0, rows=s["rows"], first=1) for s in c11.gen_symbols(ctx, cases)]
 
 
+def damaged_jobs(rng, n):
+    """QR Codes and Data Matrix symbols with a damaged codeword, decoded directly: texts of many lengths, so that many different numbers
+    of check codewords per block meet the Reed-Solomon decoder's correction path (and whatever it keeps per field) for the first time"""
+    out = []
+    for i in range(n):
+        ln = [3, 9, 17, 30, 48, 70, 100, 140, 190, 260, 340, 450][i % 12] + rng.randrange(3)
+        t = "".join(rng.choice("ABCDEFGHIJKLMNOPQRSTUVWXYZ0123456789 abcdefghij") for _ in range(ln))
+        out.append(dict(kind="qrdmg" if i % 2 == 0 else "dmdmg", text=t, w=0, h=i // 2, first=1 if i < 4 else 0))
+    return out
+
+
 CHARSETS = ["UTF-16BE", "UTF-8", "Shift_JIS", "ISO-8859-1", "ISO-8859-7", "GB18030", "EUC-KR", "Big5", "windows-1251", "US-ASCII"]
 
 
@@ -80,8 +91,10 @@ def charset_jobs(rng, n):
     out = []
     for i in range(n):
         cs = CHARSETS[i % len(CHARSETS)] if i % 3 else "UTF-16BE"
+        if i % 4 == 3:      # spellings the registry does not list (refused): a lookup that misses must not write to the registry either
+            cs = rng.choice(["iso-8859-1", "latin1", "utf-8", "shift_jis", "Utf8", "csISOLatin1", "ibm819", "euc-kr", "big5-hkscs", "x-sjis"]) + rng.choice(["", "", " "])
         t = "".join(rng.choice("abcdefghij klmnopqrstuvwxyz,.;!?") for _ in range(rng.randint(4, 60)))
-        out.append(dict(kind="qr", text=t, w=rng.choice([0, 150]), h=rng.choice([0, 150]), cs=cs, first=1 if i < 2 else 0))
+        out.append(dict(kind="qr", text=t, w=rng.choice([0, 150]), h=rng.choice([0, 150]), cs=cs, first=1 if i < 4 else 0))
     return out
 
 
@@ -106,7 +119,7 @@ def run(ctx, inputs=None, label="concurrent run"):
         addons = addon_jobs(ctx, rng, 8 if ctx.quick else 24) + aztec_jobs(ctx, rng)
         for (k, procs) in plan:
             jobs = ([dict(mkjob(rng, KINDS[i % len(KINDS)]), first=1 if i < len(KINDS) and i % 4 == 0 else 0) for i in range(39 if ctx.quick else 78)] + addons + [mkjob(rng, "dm") for _ in range(6)]
-                    + charset_jobs(rng, 12 if ctx.quick else 30))
+                    + charset_jobs(rng, 12 if ctx.quick else 30) + damaged_jobs(rng, 16 if ctx.quick else 36))
             inputs.append(dict(op="round", k=k, rounds=4 if ctx.quick else 12, procs=procs, seed=rng.randrange(1 << 30), jobs=jobs, share=0))
     # one fresh process per run: shared state that only races while it is cold must meet the goroutines before anything warmed it up
     obs, first = [], ""
